@@ -44,6 +44,10 @@ func runC02(c *Ctx, r *Report) {
 	snapshotEntriesComeFromTheWalk(c, r, "R-C02.15")
 	r.Doc("R-C02.16", "the constructor derives the heads for the log it builds, not for the caller's options: no field of an options struct handed in is filled with a value computed from another of its fields (a reused options value with other entries would otherwise yield a log whose heads are the previous log's)")
 	optionsHoldNoDerivedData(c, r, "R-C02.16")
+	r.Doc("R-C02.17", "a view is taken in one critical section (adopted from C13: a snapshot whose values are newer than its heads lists as heads entries that one of its own values references)")
+	importRules(c, r, "C13", []string{"R-C13.12"}, "R-C02.17", 0)
+	r.Doc("R-C02.18", "between the first index update of a merge and the store of the merged heads nothing runs that the caller supplied (a panicking sort function would leave merged, unreferenced entries that are no heads)")
+	noCallerCodeMidUpdate(c, r, "R-C02.18")
 	r.Doc("R-C02.9", "the predecessor index that decides which entries are referenced is keyed by predecessor links of the filed entry (not by its references, not by another list)")
 	indexKeys(c, r, "R-C02.9")
 
